@@ -13,7 +13,7 @@ def run(tier, seed):
     progs = []
     for i in range(n):
         p = g.program({"nstrat": g.rng.choice([1, 2, 2, 3]), "requests": False, "p_post": 0.1, "state_rates": False,
-                       "post_import": 0.3})
+                       "post_import": 0.3, "post_birth": 0.3, "bare_adjs": 0.3, "post_exit": 0.3})
         if not any(o["op"] == "strat" for o in p["ops"]):
             continue
         progs.append(p)
